@@ -93,9 +93,9 @@ def exec : Prog → FS → Nat → FS × List Ev × Bool
   | .ifExists _ _ _, fs, 0 => (fs, [], false)
   | .act _ _, fs, 0 => (fs, [], false)
   | .ifExists n t e, fs, k + 1 =>
-    match fs.get n with
-    | some _ => let r := exec t fs k; (r.1, .exists n true :: r.2.1, r.2.2)
-    | none => let r := exec e fs k; (r.1, .exists n false :: r.2.1, r.2.2)
+    let b := (fs.get n).isSome
+    let r := exec (if b then t else e) fs k
+    (r.1, .exists n b :: r.2.1, r.2.2)
   | .act a rest, fs, k + 1 =>
     let r := exec rest (applyAct fs a) k; (r.1, .did a :: r.2.1, r.2.2)
 
